@@ -13,8 +13,8 @@ pub struct C02 {
 
 impl C02 {
     pub fn new(tier: Tier) -> C02 {
-        let sets = hl_sets(&Bounds { t: tier.pick(5, 6), q: tier.pick(3, 4), words: tier.pick(2, 3), corpus: true, fams: vec![1, 2, 3, 4, 5] });
-        let inv = LANGS.iter().map(|l| with_lang(*l, |lang| compose_inventory(lang))).collect();
+        let sets = hl_sets(&Bounds { t: tier.pick(5, 6), q: tier.pick(3, 4), words: tier.pick(2, 3), corpus: true, pairs: true, fams: vec![1, 2, 3, 4, 5] });
+        let inv = LANGS.iter().map(|l| frozen_inventory(*l)).collect();
         C02 { sets, inv }
     }
 }
@@ -127,7 +127,7 @@ impl Prop for C02 {
     }
     fn assumptions(&self) -> Vec<String> {
         vec![
-            "composition reference: greedy left-to-right over the (base, mark) pairs the language object composes (discovered through Lang::unicode_compose), composed to the value of a Unicode table carried by the harness".into(),
+            "composition reference: greedy left-to-right over the language's frozen compose inventory (harness/src/frozen.rs, cross-checked against a Unicode table carried by the harness)".into(),
             "titles and queries limited to the listed alphabets, lengths and the word-level lexicon".into(),
             "a case where the search itself panics is outside this statement (counted under undecided_panics, inside C01's domain)".into(),
         ]
